@@ -36,7 +36,7 @@ class Unit:
         self.tiers = {}
         self.timeout, self.mem, self.role = 300, None, ""
         self.env = ""  # "K=V[,K2=V2]": harness must be compiled/run with these extra environment variables
-        self.meta = {"encodes": [], "bounds": [], "stubs": [], "outside": [], "oracle": [], "probe": []}
+        self.meta = {"encodes": [], "bounds": [], "stubs": [], "outside": [], "oracle": [], "probe": [], "probevals": []}
 
     @property
     def harness_filter(self):
@@ -346,7 +346,7 @@ def concrete_playback(unit, harness_id, prop, solver_fails=()):
     cmd = ["cargo", "kani", "-Z", "unstable-options", "-Z", "stubbing", "-Z", "concrete-playback",
            "--concrete-playback=print", "--target-dir", tdir, "--harness-timeout", f"{unit.timeout * 2}s",
            "--harness", harness_id, "--exact"]
-    if unit.meta.get("probe") and solver_fails:
+    if (unit.meta.get("probe") or unit.meta.get("probevals")) and solver_fails:
         # see below: harnesses that declare probe inputs are replayed with those; Kani's value extraction is not attempted
         out1 = "(value extraction not attempted: the harness declares probe inputs)"
     else:
@@ -369,7 +369,7 @@ def concrete_playback(unit, harness_id, prop, solver_fails=()):
         # They are replayed instead, but a cover trace may stop before later kani::any() calls (the native run then
         # panics for lack of values): such a run only counts if the panic message is one of the failed checks.
         fail_tests = [dict(t, need_message=True) for t in tests]
-    if not tests and unit.meta.get("probe") and solver_fails:
+    if not tests and (unit.meta.get("probe") or unit.meta.get("probevals")) and solver_fails:
         # For the whole-formatter harnesses Kani's value extraction (CBMC without slicing, with traces) needs more than
         # 48 GB. Such a harness declares the byte sizes of its kani::any() calls (`// @probe 8,8,8`) and a few fixed
         # probe inputs are run natively instead; a probe only counts if the native panic message is one of the
@@ -378,9 +378,21 @@ def concrete_playback(unit, harness_id, prop, solver_fails=()):
         sizes = [int(x) for x in ",".join(unit.meta["probe"]).replace(" ", "").split(",") if x]
         failed_descs = [d.strip().strip('"').strip() for d in solver_fails]
         failed_descs = [d for d in failed_descs if len(d) >= 12 and not d.startswith(("free argument", "rust_dealloc"))]
-        for name, byte in (("zeros", 0), ("ones", 1), ("sevens", 7)):
+        for name, byte in ((("zeros", 0), ("ones", 1), ("sevens", 7)) if sizes else ()):
             vals = "".join("\n        vec![" + ", ".join([str(byte)] + ["0"] * (n - 1)) + "]," for n in sizes)
             tests.append({"category": "probe", "check": f"probe input '{name}' (value extraction failed)", "test": "probe_" + name,
+                          "vals": vals, "need_message": True})
+        # explicit probe schedules: `// @probevals <name> <size>:<value>,<size>:<value>,...` (little-endian)
+        for line in unit.meta.get("probevals", []):
+            name, _, spec = line.partition(" ")
+            vals = ""
+            for item in spec.replace(" ", "").split(","):
+                if not item:
+                    continue
+                n, _, v = item.partition(":")
+                b = int(v).to_bytes(int(n), "little")
+                vals += "\n        vec![" + ", ".join(str(x) for x in b) + "],"
+            tests.append({"category": "probe", "check": f"probe schedule '{name}'", "test": "probe_" + name,
                           "vals": vals, "need_message": True})
         fail_tests = list(tests) if failed_descs else []
     record = {"property": prop, "harness": harness_id, "crate": unit.crate, "source": unit.path,
